@@ -97,7 +97,7 @@ def run(ctx):
             ctx.broken.append("binding self-test: a falsified requirement was not noticed by the replay")
         else:
             ctx.cov(binding_selftests_rejected=1)
-    ctx.cov(rule="one case per (converter kind, configured length, text class): bech32 classes = prefix {erd, other} x decoded length "
+    ctx.cov(rule="one case per (converter kind, configured length, text class): bech32 classes = prefix {erd, other, erdt, erdtest, erd1, er, e, erx, empty; the near misses with valid checksum} x decoded length "
                  "{configured-2..+2 (thorough -5..+5)} x checksum {ok, bad} x case {lower, upper, mixed} x padding bits {zero, non-zero} "
                  "x foreign character x separator; hex classes = length x odd digit count x case x foreign character; configured "
                  "lengths 0..66 (odd and zero lengths: constructor refuses); each class concretised on 3/10 random payloads, the "
